@@ -210,6 +210,37 @@ def run_session(w, sc, mon):
     for name, p in (pats2 if full else rnd.sample(pats2, 2)):
         client_decision("M2_pattern", name, p)
     client_decision("M2_correct", 0, M2)
+    # the same account record, a fresh SrpProof (new b, new B): the recorded (A, M1) of the login above must be refused,
+    # and an honest client answering the new B must be accepted
+    b2 = bytes(rnd.getrandbits(8) for _ in range(32))
+    w.call("ver_db", into=11, u=sc["user"], v=v_bytes, salt=salt)
+    w.script([b2])
+    pr2 = w.call("ver_proof", h=11, into=13)
+    if pr2.ok:
+        srv2 = M.ServerSide(un, v_bytes, salt, M.le(b2))
+        if srv2.B_bytes == pr2.b("B") and srv2.B_bytes != B:
+            mon.ev()
+            r = w.call("proof_server", h=13, keep=1, into=14, A=A, M1=M1)
+            exp2 = srv2.session(A)
+            mon.count("expected_reject")
+            if r.ok:
+                viol("accept_of_wrong:replay_against_fresh_B", "server ACCEPTED the (A, M1) recorded in an earlier login against a fresh SrpProof with another B")
+            elif r.status == "err" and (r.b("client_proof") != M1 or r.b("server_proof") != exp2["M1"]):
+                viol("error_payload:replay_against_fresh_B", "error payload differs from (presented, model) on a replay against a fresh B")
+            mon.cell(("replay_against_fresh_B", 0))
+            # honest client for the new B
+            w.script([sc["a"]])
+            c2 = w.call("cli_new", into=15, u=sc["cuser"], p=sc["cpw"], g=7, N=N_HEX, B=pr2.b("B"), salt=salt)
+            if c2.ok:
+                mon.ev()
+                r2 = w.call("proof_server", h=13, keep=1, into=16, A=c2.b("A"), M1=c2.b("M1"))
+                e3 = srv2.session(c2.b("A"))
+                mon.count("expected_accept")
+                if not r2.ok:
+                    viol("reject_of_correct:after_replay", "honest login against the fresh SrpProof refused after a replay attempt")
+                elif r2.b("M2") != e3["M2"] or r2.b("K") != e3["K"]:
+                    viol("accept_wrong_values:after_replay", "M2/K of the login after a refused replay differ from the model")
+                mon.cell(("honest_after_replay", 0))
     mon.sample({"user": sc["user"], "pw": sc["pw"], "perts": sc["perts"], "A": A.hex()[:16] + "..", "M1": M1.hex()})
 
 
@@ -226,7 +257,7 @@ def make_scenario(rnd, full):
 def worker(idx, nworkers, tier, seed, extra):
     mon = Monitor()
     rnd = rng_for(seed, "c02", idx)
-    n_full, n_samp = {"quick": (13, 1250), "thorough": (320, 20000)}[tier]
+    n_full, n_samp = {"quick": (13, 1250), "thorough": (600, 40000)}[tier]
     w = Wsx()
     try:
         for i in range(n_full):
